@@ -104,3 +104,101 @@ theorem obsB_iff (obs : List (Rng × Rng)) (t s : Nat) :
   · rintro ⟨o, ho, h1, h2⟩; exact ⟨o, ho, by simp [h1, h2]⟩
 
 end Moc
+
+namespace Moc
+
+/-- Folding unions over entries with canonical space coverages: canonical, and covers exactly the
+    accumulator plus the entries' coverages. -/
+theorem foldl_union_spec : ∀ (es : FlatST) (acc : List Rng), Canon acc → (∀ e ∈ es, Canon e.2) →
+    Canon (es.foldl (fun acc e => union acc e.2) acc) ∧
+    ∀ p, mem p (es.foldl (fun acc e => union acc e.2) acc) ↔ mem p acc ∨ ∃ e ∈ es, mem p e.2 := by
+  intro es
+  induction es with
+  | nil => intro acc hc _; exact ⟨hc, fun p => by simp⟩
+  | cons e t ih =>
+    intro acc hc he
+    have u := union_spec acc e.2 hc (he e List.mem_cons_self)
+    obtain ⟨i1, i2⟩ := ih (union acc e.2) u.1 (fun x hx => he x (List.mem_cons_of_mem _ hx))
+    refine ⟨i1, fun p => ?_⟩
+    simp only [List.foldl_cons]
+    rw [i2 p, u.2 p]
+    constructor
+    · rintro ((h | h) | ⟨x, hx, hp⟩)
+      · exact Or.inl h
+      · exact Or.inr ⟨e, List.mem_cons_self, h⟩
+      · exact Or.inr ⟨x, List.mem_cons_of_mem _ hx, hp⟩
+    · rintro (h | ⟨x, hx, hp⟩)
+      · exact Or.inl (Or.inl h)
+      · cases hx with
+        | head => exact Or.inl (Or.inr hp)
+        | tail _ hm => exact Or.inr ⟨x, hm, hp⟩
+
+/-- **Time fold, as computed**: canonical, and a position is covered iff some entry whose time range
+    meets `x` covers it. -/
+theorem tfoldRanges_spec (x : List Rng) (hx : Canon x) (flat : FlatST)
+    (hf : ∀ e ∈ flat, e.1.1 < e.1.2 ∧ Canon e.2) :
+    Canon (tfoldRanges x flat) ∧
+    ∀ p, mem p (tfoldRanges x flat) ↔ ∃ e ∈ flat, (∃ t, e.1.1 ≤ t ∧ t < e.1.2 ∧ mem t x) ∧ mem p e.2 := by
+  unfold tfoldRanges
+  have sp := foldl_union_spec (flat.filter fun e => intersectsRange x e.1) [] trivial
+    (fun e he => (hf e (List.mem_filter.1 he).1).2)
+  refine ⟨sp.1, fun p => ?_⟩
+  rw [sp.2 p]
+  simp only [mem, false_or, List.mem_filter]
+  constructor
+  · rintro ⟨e, ⟨he, hi⟩, hp⟩
+    refine ⟨e, he, ?_, hp⟩
+    obtain ⟨t, ht⟩ := (intersectsRange_iff x hx e.1 (hf e he).1).1 hi
+    exact ⟨t, ht.1, ht.2.1, ht.2.2⟩
+  · rintro ⟨e, he, ⟨t, h1, h2, h3⟩, hp⟩
+    exact ⟨e, ⟨he, (intersectsRange_iff x hx e.1 (hf e he).1).2 ⟨t, h1, h2, h3⟩⟩, hp⟩
+
+/-- The result of the time fold does not depend on the order in which the (parallel) reduction
+    visits the entries. -/
+theorem tfoldRanges_perm (x : List Rng) (hx : Canon x) (flat flat' : FlatST) (hp : flat.Perm flat')
+    (hf : ∀ e ∈ flat, e.1.1 < e.1.2 ∧ Canon e.2) : tfoldRanges x flat = tfoldRanges x flat' := by
+  have hf' : ∀ e ∈ flat', e.1.1 < e.1.2 ∧ Canon e.2 := fun e he => hf e (hp.mem_iff.2 he)
+  have s1 := tfoldRanges_spec x hx flat hf
+  have s2 := tfoldRanges_spec x hx flat' hf'
+  refine Canon.ext s1.1 s2.1 (fun p => ?_)
+  rw [s1.2 p, s2.2 p]
+  constructor
+  · rintro ⟨e, he, h⟩; exact ⟨e, hp.mem_iff.1 he, h⟩
+  · rintro ⟨e, he, h⟩; exact ⟨e, hp.mem_iff.2 he, h⟩
+
+/-- Time ranges of a flat coverage in increasing order. -/
+def FlatSorted (lo : Nat) : FlatST → Prop
+  | [] => True
+  | e :: t => lo ≤ e.1.1 ∧ e.1.1 < e.1.2 ∧ FlatSorted e.1.1 t
+
+theorem sortedFrom_filter_map (p : Rng × List Rng → Bool) : ∀ (flat : FlatST) (lo : Nat), FlatSorted lo flat →
+    SortedFrom lo ((flat.filter p).map (·.1)) := by
+  intro flat
+  induction flat with
+  | nil => intro lo _; trivial
+  | cons e t ih =>
+    intro lo h
+    obtain ⟨h1, h2, h3⟩ := h
+    simp only [List.filter_cons]
+    split
+    · exact ⟨h1, h2, ih _ h3⟩
+    · exact (ih _ h3).mono h1
+
+/-- **Space fold, as computed**: canonical, and an instant is covered iff it lies in the time range of
+    an entry whose space coverage is inside `y`. -/
+theorem sfoldRanges_spec (y : List Rng) (hy : Canon y) (flat : FlatST) (hs : FlatSorted 0 flat)
+    (hf : ∀ e ∈ flat, Canon e.2) :
+    Canon (sfoldRanges y flat) ∧
+    ∀ t, mem t (sfoldRanges y flat) ↔ ∃ e ∈ flat, (e.1.1 ≤ t ∧ t < e.1.2) ∧ ∀ p, mem p e.2 → mem p y := by
+  unfold sfoldRanges newFromSorted
+  have sp := mergeOverlapping_spec _ (sortedFrom_filter_map (fun e => containsAll y e.2) flat 0 hs)
+  refine ⟨sp.1, fun t => ?_⟩
+  rw [sp.2 t, mem_iff_exists]
+  simp only [List.mem_map, List.mem_filter]
+  constructor
+  · rintro ⟨r, ⟨e, ⟨he, hc⟩, rfl⟩, hr⟩
+    exact ⟨e, he, hr, (containsAll_iff y e.2 hy (hf e he)).1 hc⟩
+  · rintro ⟨e, he, hr, hc⟩
+    exact ⟨e.1, ⟨e, ⟨he, (containsAll_iff y e.2 hy (hf e he)).2 hc⟩, rfl⟩, hr⟩
+
+end Moc
